@@ -170,6 +170,16 @@ CLAIMED = {
              "lookAt, distances, gap closing, twists, Jacobians, sphere samplers and all angle-wrapping variants, with TLC "
              "deciding thresholds and that every helper/form was exercised.",
         note="TLC exact arithmetic; RefEval oracles (geodesic midpoint, se(3) exponential); 1e-8 / 1e-5 tolerances as stated"),
+    "C02": dict(
+        level="model_checking", design="3/C02",
+        technique="TLA+ spec MRExact.tla: an executable exact specification of FK, both Jacobians and the Newton-Euler "
+                  "recursion (as a Forward/Backward state machine) on an integer lattice of chains, evaluated by TLC with the "
+                  "decomposition / symmetry / positivity / body-space / sum-of-Jacobians laws as invariants; its integers are "
+                  "replayed into the port AND the vendored reference; all 47 shared functions compared on random arguments "
+                  "with shape/exception/value events decided by TLC (LawTrace.tla, one coverage obligation per function)",
+        text="Three-way agreement on the lattice with TLC as oracle (10 functions); off the lattice the vendored reference "
+             "is the oracle the property itself names. Random differential testing, exhaustive only on the lattice cases.",
+        note="TLC exact integer arithmetic; vendored modern_robotics 1.1.1 core.py (sha256 pinned)"),
 }
 
 NOT_YET = "check not built yet in this round (planned: see DESIGN.md section 3)"
